@@ -7,8 +7,20 @@
 //! and the trie blob cut out of the real output).  Independently, the oracle compares every loaded field
 //! with the *declared* row (structured generator data, not the CSV text), compiles twice and loads the
 //! same bytes at two alignments.
+//!
+//! The declared fields are read back through EVERY way the loaded dictionary hands a field out, not only through the full
+//! load: oracle-only (no case line of its own, the replay is the `dict` line of the case), every entry is also read through
+//! each single-field `InfoSubset` and random partial subsets with `LexiconSet::get_word_info_subset` and
+//! `Lexicon::get_word_info`, and the keys of some entries are analysed by a `StatefulTokenizer` after `set_subset`; a field
+//! that was asked for must equal the declared value (keys `c05:subset:…`, `c05:subset-lexicon:…`, `c05:tok-subset:…`).
 use crate::common::*;
 use sudachi::dic::build::DictBuilder;
+use sudachi::analysis::mlist::MorphemeList;
+use sudachi::analysis::stateful_tokenizer::StatefulTokenizer;
+use sudachi::analysis::Mode;
+use sudachi::dic::lexicon::word_infos::WordInfo;
+use sudachi::dic::subset::InfoSubset;
+use sudachi::dic::dictionary::JapaneseDictionary;
 use sudachi::dic::word_id::WordId;
 use sudachi::dic::{DictionaryLoader, LoadedDictionary};
 
@@ -814,6 +826,16 @@ struct WordObs {
     syn: Vec<u32>,
 }
 
+/// what the accessors of a `WordInfo` hand out
+fn obs_of(wi: &WordInfo) -> WordObs {
+    WordObs {
+        surface: wi.surface().to_string(), hwl: wi.head_word_length(), pos: wi.pos_id(), norm: wi.normalized_form().to_string(),
+        dfid: wi.dictionary_form_word_id(), dicform: wi.dictionary_form().to_string(), reading: wi.reading_form().to_string(),
+        a: wi.a_unit_split().iter().map(|x| x.as_raw()).collect(), b: wi.b_unit_split().iter().map(|x| x.as_raw()).collect(),
+        ws: wi.word_structure().iter().map(|x| x.as_raw()).collect(), syn: wi.synonym_group_ids().to_vec(),
+    }
+}
+
 /// load the dictionaries from the given byte slices and read every observable back
 fn load_and_dump(sys: &[u8], usr: Option<&[u8]>, keys: &[String]) -> Result<Loaded, String> {
     let r = catch(|| -> Result<Loaded, String> {
@@ -854,12 +876,7 @@ fn load_and_dump(sys: &[u8], usr: Option<&[u8]>, keys: &[String]) -> Result<Load
                 let obs: Result<WordObs, String> = match wi {
                     Err(_) => Err("PANIC".into()),
                     Ok(Err(_)) => Err("err".into()),
-                    Ok(Ok(wi)) => Ok(WordObs {
-                        surface: wi.surface().to_string(), hwl: wi.head_word_length(), pos: wi.pos_id(), norm: wi.normalized_form().to_string(),
-                        dfid: wi.dictionary_form_word_id(), dicform: wi.dictionary_form().to_string(), reading: wi.reading_form().to_string(),
-                        a: wi.a_unit_split().iter().map(|x| x.as_raw()).collect(), b: wi.b_unit_split().iter().map(|x| x.as_raw()).collect(),
-                        ws: wi.word_structure().iter().map(|x| x.as_raw()).collect(), syn: wi.synonym_group_ids().to_vec(),
-                    }),
+                    Ok(Ok(wi)) => Ok(obs_of(&wi)),
                 };
                 let p = catch(|| ld.lexicon_set.get_word_param(id)).ok();
                 let a = match &obs {
@@ -936,6 +953,123 @@ fn intended_inline(w: &World5, t: &Target, in_user: bool) -> Option<Target> {
     None
 }
 
+/// bits of `InfoSubset` (the declared fields of an entry, one bit each)
+const F_SURFACE: u32 = 1;
+const F_HWL: u32 = 1 << 1;
+const F_POS: u32 = 1 << 2;
+const F_NORM: u32 = 1 << 3;
+const F_DICFORM: u32 = 1 << 4;
+const F_READING: u32 = 1 << 5;
+const F_SPLIT_A: u32 = 1 << 6;
+const F_SPLIT_B: u32 = 1 << 7;
+const F_WS: u32 = 1 << 8;
+const F_SYN: u32 = 1 << 9;
+const F_ALL: u32 = (1 << 10) - 1;
+const F_NAMES: [&str; 10] = ["SURFACE", "HEAD_WORD_LENGTH", "POS_ID", "NORMALIZED_FORM", "DIC_FORM_WORD_ID", "READING_FORM", "SPLIT_A", "SPLIT_B", "WORD_STRUCTURE", "SYNONYM_GROUP_ID"];
+
+fn mask_name(m: u32) -> String {
+    if m == F_ALL { return "ALL".into(); }
+    let v: Vec<&str> = (0..10).filter(|i| m >> i & 1 == 1).map(|i| F_NAMES[i]).collect();
+    if v.is_empty() { "EMPTY".into() } else { v.join("|") }
+}
+
+/// A request the accessors can answer: the three form accessors (`normalized_form`, `reading_form`, `dictionary_form`)
+/// hand out the headword for a form stored as "equal to the headword", so asking for a form means asking for the
+/// headword too (what `InfoSubset::normalize` / `set_subset` do).  Computed here, not with `normalize`, so that the
+/// requests do not depend on the function under test of another property (C11).
+fn closed(m: u32) -> u32 {
+    if m & (F_NORM | F_DICFORM | F_READING) != 0 { m | F_SURFACE } else { m }
+}
+
+/// Declared row `r` (row `i` of its dictionary) vs the fields `got` read back for it - ONLY the fields in `mask` (the
+/// fields that were asked for) are compared; `pre` = key prefix (`c05:field`, `c05:ufield` for the full load; `c05:subset:field`,
+/// `c05:tok-subset:field`, ... for the partial loads).  Returns (failure key, description).
+fn word_diffs(w: &World5, pos_list: &[Vec<String>], r: &GRow, got: &Result<WordObs, String>, mask: u32, in_user: bool, pre: &str, i: usize) -> Vec<(String, String)> {
+    let rows = if in_user { &w.usr.as_ref().unwrap().rows } else { &w.sys.rows };
+    let mut bad: Vec<(String, String)> = vec![];
+    // the entry the dictionary-form column names: for a user dictionary compiled by the candidate repair fix_D8b
+    // (variant dfv=own) both `N` and `UN` name the OWN entry N (an N beyond the own entries is refused by the compiler)
+    let exp_dic: String = match &r.dic_form {
+        None => r.headword.clone(),
+        Some(t) => if in_user && dfv_variant() == "own" { rows.get(t.idx).map_or(String::new(), |x| x.headword.clone()) } else { row_of(w, t).headword.clone() },
+    };
+    match got {
+        Err(e) => {
+            // D8: the dictionary-form id is a fixed-width field that the reader decodes whenever ANY later field is asked
+            // for, and WordInfos::get_word_info then follows it - the same failure as with all fields
+            if in_user && r.dic_form.is_some() {
+                let form = if r.dic_form.as_ref().map_or(false, |t| t.user) { "own" } else { "sys" };
+                bad.push((format!("c05:user-dicform:{}:panic", form), format!("get_word_info {}: dictionary form declared as {:?}", e, r.dic_form)));
+            } else {
+                bad.push((format!("{}:{}", pre, e.to_lowercase()), format!("get_word_info of word {} -> {}", i, e)));
+            }
+        }
+        Ok(o) => {
+            let cmp = |bad: &mut Vec<(String, String)>, name: &str, got: String, want: String| {
+                if got != want { bad.push((format!("{}:{}", pre, name), format!("{}: loaded {:?}, declared {:?}", name, got, want))); }
+            };
+            if mask & F_SURFACE != 0 { cmp(&mut bad, "headword", o.surface.clone(), r.headword.clone()); }
+            if mask & F_HWL != 0 { cmp(&mut bad, "keylen", o.hwl.to_string(), r.surface.len().to_string()); }
+            if mask & F_POS != 0 {
+                let pos_got = pos_list.get(o.pos as usize).map(|p| p.join("\u{1}")).unwrap_or_else(|| "<pos id out of range>".into());
+                cmp(&mut bad, "pos", pos_got, w.pos[r.pos].join("\u{1}"));
+            }
+            if mask & F_READING != 0 {
+                if r.reading.is_empty() && !r.headword.is_empty() {
+                    if o.reading != r.reading { bad.push(("c05:empty-form:reading".into(), format!("reading declared empty, loaded {:?}", o.reading))); }
+                } else { cmp(&mut bad, "reading", o.reading.clone(), r.reading.clone()); }
+            }
+            if mask & F_NORM != 0 {
+                if r.norm.is_empty() && !r.headword.is_empty() {
+                    if o.norm != r.norm { bad.push(("c05:empty-form:norm".into(), format!("normalized form declared empty, loaded {:?}", o.norm))); }
+                } else { cmp(&mut bad, "norm", o.norm.clone(), r.norm.clone()); }
+            }
+            if mask & F_DICFORM != 0 {
+                if in_user && r.dic_form.is_some() {
+                    let form = if r.dic_form.as_ref().map_or(false, |t| t.user) { "own" } else { "sys" };
+                    if o.dicform != exp_dic { bad.push((format!("c05:user-dicform:{}:wrong", form), format!("dictionary form declared {:?} = {:?}, loaded {:?}", r.dic_form, exp_dic, o.dicform))); }
+                } else if exp_dic.is_empty() {
+                    // an empty headword of the referenced entry cannot be told apart from "no dictionary form"
+                } else { cmp(&mut bad, "dicform", o.dicform.clone(), exp_dic.clone()); }
+            }
+            let exp_split = |specs: &[SplitSpec]| -> String {
+                join(specs.iter().map(|s| match s {
+                    SplitSpec::Id(t) => expected_id(t).to_string(),
+                    SplitSpec::Inline(t) => intended_inline(w, t, in_user).map_or("unresolvable".to_string(), |t| expected_id(&t).to_string()),
+                }), ",")
+            };
+            // an inline unit that lands on a system word whose reading was declared EMPTY (stored like "equal to
+            // the headword") is the empty-form finding, not a new one
+            let empty_form_hit = |specs: &[SplitSpec], got: &[u32]| -> bool {
+                in_user && specs.len() == got.len() && specs.iter().zip(got).all(|(s, &g)| match s {
+                    SplitSpec::Id(t) => expected_id(t) == g,
+                    SplitSpec::Inline(t) => {
+                        if intended_inline(w, t, in_user).map(|t| expected_id(&t)) == Some(g) { return true; }
+                        let tr = row_of(w, t);
+                        let name = if !t.user { &tr.headword } else { &tr.surface };
+                        (g >> 28) == 0 && w.sys.rows.get(g as usize).map_or(false, |x| x.reading.is_empty() && &x.headword == name && w.pos[x.pos] == w.pos[tr.pos] && name == &tr.reading)
+                    }
+                })
+            };
+            for (nm, bit, specs, got) in [("split_a", F_SPLIT_A, &r.a, &o.a), ("split_b", F_SPLIT_B, &r.b, &o.b)] {
+                if mask & bit == 0 { continue; }
+                let want = exp_split(specs);
+                let gots = join(got.iter(), ",");
+                if gots != want {
+                    if empty_form_hit(specs, got) {
+                        bad.push(("c05:empty-form:inline".into(), format!("{}: loaded {:?}, declared {:?} (inline unit matched a system word whose reading was declared empty)", nm, gots, want)));
+                    } else {
+                        cmp(&mut bad, nm, gots, want);
+                    }
+                }
+            }
+            if mask & F_WS != 0 { cmp(&mut bad, "word_structure", join(o.ws.iter(), ","), join(r.ws.iter().map(expected_id), ",")); }
+            if mask & F_SYN != 0 { cmp(&mut bad, "synonyms", join(o.syn.iter(), ","), join(r.syn.iter(), ",")); }
+        }
+    }
+    bad
+}
+
 fn check_dict(run: &mut Run, idx: usize, w: &World5, l: &Loaded, in_user: bool) -> usize {
     let d = if in_user { 1 } else { 0 };
     let rows = if in_user { &w.usr.as_ref().unwrap().rows } else { &w.sys.rows };
@@ -946,76 +1080,7 @@ fn check_dict(run: &mut Run, idx: usize, w: &World5, l: &Loaded, in_user: bool) 
         return 1;
     }
     for (i, r) in rows.iter().enumerate() {
-        let mut bad: Vec<(String, String)> = vec![];
-        // the entry the dictionary-form column names: for a user dictionary compiled by the candidate repair fix_D8b
-        // (variant dfv=own) both `N` and `UN` name the OWN entry N (an N beyond the own entries is refused by the compiler)
-        let exp_dic: String = match &r.dic_form {
-            None => r.headword.clone(),
-            Some(t) => if in_user && dfv_variant() == "own" { rows.get(t.idx).map_or(String::new(), |x| x.headword.clone()) } else { row_of(w, t).headword.clone() },
-        };
-        match &l.words[d][i] {
-            Err(e) => {
-                if in_user && r.dic_form.is_some() {
-                    let form = if r.dic_form.as_ref().map_or(false, |t| t.user) { "own" } else { "sys" };
-                    bad.push((format!("c05:user-dicform:{}:panic", form), format!("get_word_info {}: dictionary form declared as {:?}", e, r.dic_form)));
-                } else {
-                    bad.push((format!("c05:{}:{}", pre, e.to_lowercase()), format!("get_word_info of word {} -> {}", i, e)));
-                }
-            }
-            Ok(o) => {
-                let cmp = |bad: &mut Vec<(String, String)>, name: &str, got: String, want: String| {
-                    if got != want { bad.push((format!("c05:{}:{}", pre, name), format!("{}: loaded {:?}, declared {:?}", name, got, want))); }
-                };
-                cmp(&mut bad, "headword", o.surface.clone(), r.headword.clone());
-                cmp(&mut bad, "keylen", o.hwl.to_string(), r.surface.len().to_string());
-                let pos_got = l.pos.get(o.pos as usize).map(|p| p.join("\u{1}")).unwrap_or_else(|| "<pos id out of range>".into());
-                cmp(&mut bad, "pos", pos_got, w.pos[r.pos].join("\u{1}"));
-                if r.reading.is_empty() && !r.headword.is_empty() {
-                    if o.reading != r.reading { bad.push(("c05:empty-form:reading".into(), format!("reading declared empty, loaded {:?}", o.reading))); }
-                } else { cmp(&mut bad, "reading", o.reading.clone(), r.reading.clone()); }
-                if r.norm.is_empty() && !r.headword.is_empty() {
-                    if o.norm != r.norm { bad.push(("c05:empty-form:norm".into(), format!("normalized form declared empty, loaded {:?}", o.norm))); }
-                } else { cmp(&mut bad, "norm", o.norm.clone(), r.norm.clone()); }
-                if in_user && r.dic_form.is_some() {
-                    let form = if r.dic_form.as_ref().map_or(false, |t| t.user) { "own" } else { "sys" };
-                    if o.dicform != exp_dic { bad.push((format!("c05:user-dicform:{}:wrong", form), format!("dictionary form declared {:?} = {:?}, loaded {:?}", r.dic_form, exp_dic, o.dicform))); }
-                } else if exp_dic.is_empty() {
-                    // an empty headword of the referenced entry cannot be told apart from "no dictionary form"
-                } else { cmp(&mut bad, "dicform", o.dicform.clone(), exp_dic.clone()); }
-                let exp_split = |specs: &[SplitSpec]| -> String {
-                    join(specs.iter().map(|s| match s {
-                        SplitSpec::Id(t) => expected_id(t).to_string(),
-                        SplitSpec::Inline(t) => intended_inline(w, t, in_user).map_or("unresolvable".to_string(), |t| expected_id(&t).to_string()),
-                    }), ",")
-                };
-                // an inline unit that lands on a system word whose reading was declared EMPTY (stored like "equal to
-                // the headword") is the empty-form finding, not a new one
-                let empty_form_hit = |specs: &[SplitSpec], got: &[u32]| -> bool {
-                    in_user && specs.len() == got.len() && specs.iter().zip(got).all(|(s, &g)| match s {
-                        SplitSpec::Id(t) => expected_id(t) == g,
-                        SplitSpec::Inline(t) => {
-                            if intended_inline(w, t, in_user).map(|t| expected_id(&t)) == Some(g) { return true; }
-                            let tr = row_of(w, t);
-                            let name = if !t.user { &tr.headword } else { &tr.surface };
-                            (g >> 28) == 0 && w.sys.rows.get(g as usize).map_or(false, |x| x.reading.is_empty() && &x.headword == name && w.pos[x.pos] == w.pos[tr.pos] && name == &tr.reading)
-                        }
-                    })
-                };
-                for (nm, specs, got) in [("split_a", &r.a, &o.a), ("split_b", &r.b, &o.b)] {
-                    let want = exp_split(specs);
-                    let gots = join(got.iter(), ",");
-                    if gots != want {
-                        if empty_form_hit(specs, got) {
-                            bad.push(("c05:empty-form:inline".into(), format!("{}: loaded {:?}, declared {:?} (inline unit matched a system word whose reading was declared empty)", nm, gots, want)));
-                        } else {
-                            cmp(&mut bad, nm, gots, want);
-                        }
-                    }
-                }
-                cmp(&mut bad, "word_structure", join(o.ws.iter(), ","), join(r.ws.iter().map(expected_id), ","));
-                cmp(&mut bad, "synonyms", join(o.syn.iter(), ","), join(r.syn.iter(), ","));
-            }
-        }
+        let mut bad = word_diffs(w, &l.pos, r, &l.words[d][i], F_ALL, in_user, &format!("c05:{}", pre), i);
         match l.params[d][i] {
             None => bad.push((format!("c05:{}:params-panic", pre), "get_word_param panicked".into())),
             Some((a, b, c)) => {
@@ -1032,6 +1097,178 @@ fn check_dict(run: &mut Run, idx: usize, w: &World5, l: &Loaded, in_user: bool) 
     fails
 }
 
+// ---------------------------------------------------------------------------------------------
+// oracle, second half: the same declared data read back through PARTIAL field subsets
+//
+// "Loading yields for every entry exactly the declared data" holds for every way the loaded dictionary hands a field
+// out: `LexiconSet::get_word_info` (all fields, above) is one of them; `LexiconSet::get_word_info_subset` /
+// `Lexicon::get_word_info` with a partial `InfoSubset` (the lattice asks for POS_ID, sudachi-cli for POS_ID|NORMALIZED_FORM|..,
+// the user-dictionary compiler's resolver for SURFACE|READING_FORM|POS_ID, Python's `fields=`) and a tokenizer after
+// `set_subset` are the others: there the reader SKIPS the fields that were not asked for (skip_u16_string, skip_u32_array,
+// skip_wid_array) instead of parsing them, and a skip that disagrees with the writer about the length of a field shifts
+// every later field.  The oracle states only this: a field that was ASKED FOR equals the declared value (same comparison,
+// same known-finding keys as the full load); it says nothing about the fields that were not asked for.
+
+const SUBSET_FAIL_CAP: usize = 12;
+
+/// requests tried on every entry: each single field, plus `extra` random subsets (all closed under `closed`)
+fn subset_masks(rng: &mut Rng, extra: usize) -> Vec<u32> {
+    let mut v: Vec<u32> = (0..10).map(|i| closed(1u32 << i)).collect();
+    for _ in 0..extra {
+        let m = match rng.below(4) {
+            // what the bundled callers ask for
+            0 => *rng.pick(&[F_SURFACE | F_READING | F_POS, F_POS | F_NORM, F_POS | F_NORM | F_DICFORM | F_READING, F_SPLIT_A | F_HWL, F_SPLIT_B | F_HWL, F_WS | F_SYN]),
+            // a late field alone or with few others (everything before it is skipped)
+            1 => (1u32 << rng.range(2, 9)) | (1u32 << rng.range(5, 9)),
+            _ => rng.below(1 << 10) as u32,
+        };
+        v.push(closed(m));
+    }
+    v.sort();
+    v.dedup();
+    v
+}
+
+fn check_subsets(run: &mut Run, idx: usize, rng: &mut Rng, w: &World5, l: &Loaded, sb: &[u8], ub: Option<&[u8]>) -> usize {
+    // the loaded dictionaries, once more (the loader is deterministic: alignment clause)
+    let loaded = catch(|| -> Option<(sudachi::dic::LoadedDictionary, sudachi::dic::lexicon::Lexicon)> {
+        let direct = DictionaryLoader::read_system_dictionary(sb).ok()?.lexicon;
+        let mut ld = DictionaryLoader::read_system_dictionary(sb).ok()?.to_loaded()?;
+        if let Some(u) = ub {
+            let ul = DictionaryLoader::read_user_dictionary(u).ok()?;
+            let npos = ld.grammar.pos_list.len();
+            ld.lexicon_set.append(ul.lexicon, npos).ok()?;
+            if let Some(g) = ul.grammar { ld.grammar.merge(g); }
+        }
+        Some((ld, direct))
+    });
+    let Ok(Some((ld, direct))) = loaded else { return 0 };   // a dictionary that does not load is reported by the full load
+    let mut fails = 0;
+    let mut reads = 0u64;
+    let mut boundary_skips = 0u64;
+    let dicts: Vec<(bool, &Vec<GRow>)> = std::iter::once((false, &w.sys.rows)).chain(w.usr.iter().map(|u| (true, &u.rows))).collect();
+    for (d, (in_user, rows)) in dicts.iter().enumerate() {
+        if l.words[d].len() != rows.len() { continue; }   // reported by the full load
+        for (i, r) in rows.iter().enumerate() {
+            let long = [&r.headword, &r.reading, &r.norm].iter().filter(|s| units(s) >= 127).count();
+            let masks = subset_masks(rng, if long > 0 { 6 } else { 2 });
+            let id = WordId::new(d as u8, i as u32);
+            // a failure the full load has already reported for this word under the same key (the known findings F-EMPTY and
+            // D8 show through every request that contains the field) is not reported again; every key once per word
+            let mut seen: Vec<String> = word_diffs(w, &l.pos, r, &l.words[d][i], F_ALL, *in_user, "c05:full", i).into_iter().map(|x| x.0).collect();
+            for &m in &masks {
+                let ways: &[&str] = if !*in_user && (m.count_ones() <= 2 || rng.chance(1, 3)) { &["set", "lexicon"] } else { &["set"] };
+                for way in ways {
+                    let sub = InfoSubset::from_bits_retain(m);
+                    let got = catch(|| if *way == "set" { ld.lexicon_set.get_word_info_subset(id, sub) } else { direct.get_word_info(i as u32, sub) });
+                    let obs: Result<WordObs, String> = match got { Err(_) => Err("PANIC".into()), Ok(Err(_)) => Err("err".into()), Ok(Ok(wi)) => Ok(obs_of(&wi)) };
+                    reads += 1;
+                    // does this request make the reader skip a string with a two-byte length prefix?
+                    let skipped_long = (m & F_SURFACE == 0 && units(&r.headword) >= 127) || (m & F_NORM == 0 && units(&r.norm) >= 127 && r.norm != r.headword)
+                        || (m & F_READING == 0 && units(&r.reading) >= 127 && r.reading != r.headword);
+                    if skipped_long && m >> 2 != 0 { boundary_skips += 1; }
+                    let pre = format!("c05:subset{}:{}", if *way == "set" { "" } else { "-lexicon" }, if *in_user { "ufield" } else { "field" });
+                    for (k, what) in word_diffs(w, &l.pos, r, &obs, m, *in_user, &pre, i) {
+                        if seen.contains(&k) { continue; }
+                        seen.push(k.clone());
+                        fails += 1;
+                        if fails <= SUBSET_FAIL_CAP {
+                            run.fail(idx, &k, &format!("{} word {} ({:?}; headword/reading/normalised form of {}/{}/{} UTF-16 units) read through {} with the subset {}: {}",
+                                if *in_user { "user" } else { "system" }, i, r.surface.chars().take(12).collect::<String>(), units(&r.headword), units(&r.reading), units(&r.norm),
+                                if *way == "set" { "LexiconSet::get_word_info_subset" } else { "Lexicon::get_word_info" }, mask_name(m), what));
+                        }
+                    }
+                }
+            }
+        }
+    }
+    run.bump_by("subset:reads", reads);
+    run.bump_by("subset:reads-skipping-a-two-byte-prefixed-string", boundary_skips);
+    fails
+}
+
+fn tok_workdir(out: &str) -> Option<String> {
+    let dir = format!("{}/c05_tok", out);
+    std::fs::create_dir_all(&dir).ok()?;
+    let repo = std::env::var("VERIF_REPO").unwrap_or_else(|_| "/repo".into());
+    let chardef = std::fs::read_to_string(format!("{}/resources/char.def", repo)).unwrap_or_else(|_| "DEFAULT 0 1 0\n0x0030..0x0039 NUMERIC\n".into());
+    std::fs::write(format!("{}/char.def", dir), chardef).ok()?;
+    Some(dir)
+}
+
+/// per dictionary word of the analysis: (raw word id, fields of `Morpheme::get_word_info`)
+fn tok_words(dic: &JapaneseDictionary, text: &str, mode: Mode, mask: u32) -> Result<Result<(Vec<(u32, WordObs)>, Vec<Vec<String>>), String>, String> {
+    catch(|| {
+        let mut tok = StatefulTokenizer::new(dic, mode);
+        tok.set_subset(InfoSubset::from_bits_retain(mask));
+        tok.reset().push_str(text);
+        tok.do_tokenize().map_err(|e| crate::dict::err_class(&e))?;
+        let mut ml = MorphemeList::empty(dic);
+        ml.collect_results(&mut tok).map_err(|e| crate::dict::err_class(&e))?;
+        let ws = ml.iter().filter(|m| !m.is_oov()).map(|m| (m.word_id().as_raw(), obs_of(m.get_word_info()))).collect();
+        Ok((ws, dic.grammar().pos_list.clone()))
+    })
+}
+
+/// the same through an analysis: `set_subset(S)`, tokenise the key of an entry, compare the asked-for fields of every
+/// dictionary word of the result (whatever path was chosen) with the declared row of its word id
+fn check_tok_subsets(run: &mut Run, idx: usize, rng: &mut Rng, w: &World5, l: &Loaded, dir: &str, sb: &[u8], ub: Option<&[u8]>) -> usize {
+    // the OOV provider needs a part of speech the system dictionary has: the one of its first row
+    let oov_pos = serde_json::to_string(&w.pos[w.sys.rows[0].pos].to_vec()).unwrap_or_default();
+    let oov = format!(r#"{{"class":"com.worksap.nlp.sudachi.SimpleOovPlugin","oovPOS":{},"leftId":0,"rightId":0,"cost":30000}}"#, oov_pos);
+    let cfg = format!(r#"{{"path":"{}","characterDefinitionFile":"char.def","connectionCostPlugin":[],"inputTextPlugin":[],"oovProviderPlugin":[{}],"pathRewritePlugin":[]}}"#, dir, oov);
+    let dic = match crate::dict::load(&cfg, sb.to_vec(), ub.map(|u| vec![u.to_vec()]).unwrap_or_default()) {
+        Ok(d) => d,
+        Err(e) => { run.bump(&format!("tok-subset:dictionary-not-loaded-as-JapaneseDictionary:{}", e.chars().filter(|c| c.is_ascii_alphabetic() || *c == ':').take(40).collect::<String>())); return 0; }
+    };
+    // texts: the keys of the first rows (the directed boundary rows sit there) and of two random rows
+    let mut texts: Vec<String> = vec![];
+    let all: Vec<&GRow> = w.sys.rows.iter().chain(w.usr.iter().flat_map(|u| u.rows.iter())).collect();
+    let mut cand: Vec<&GRow> = all.iter().take(3).cloned().collect();
+    for _ in 0..2 { cand.push(*rng.pick(&all)); }
+    if let Some(u) = &w.usr { cand.push(rng.pick(&u.rows)); }
+    for r in cand {
+        if r.left >= 0 && !r.surface.is_empty() && r.surface.len() <= 40000 && !texts.contains(&r.surface) { texts.push(r.surface.clone()); }
+    }
+    let mut fails = 0;
+    for text in &texts {
+        let mode = *rng.pick(&[Mode::C, Mode::C, Mode::A, Mode::B]);
+        let mode_bit = match mode { Mode::A => F_SPLIT_A, Mode::B => F_SPLIT_B, _ => 0 };
+        let asked = closed(match rng.below(3) { 0 => 1u32 << rng.below(10), 1 => *rng.pick(&[F_POS, F_POS | F_NORM, F_SURFACE | F_READING | F_POS, F_READING, F_SYN, F_WS]), _ => rng.below(1 << 10) as u32 });
+        let full = tok_words(&dic, text, mode, F_ALL);
+        let Ok(Ok((fw, _))) = full else { run.bump("tok-subset:analysis-fails-with-all-fields(not-this-property)"); continue };
+        run.bump("tok-subset:analyses");
+        let ctx = format!("text = key {:?} ({} bytes), mode {:?}, set_subset({})", text.chars().take(12).collect::<String>(), text.len(), mode, mask_name(asked));
+        match tok_words(&dic, text, mode, asked) {
+            Err(_) | Ok(Err(_)) => {
+                // with all fields the same analysis succeeds: reading the words of the path through the subset failed
+                fails += 1;
+                run.fail(idx, "c05:tok-subset:fails", &format!("{}: the analysis succeeds with all fields ({} dictionary words) and fails / panics with the subset", ctx, fw.len()));
+            }
+            Ok(Ok((ws, pos_list))) => {
+                let eff = closed(asked | mode_bit);
+                for (wid, o) in ws {
+                    let (d, i) = ((wid >> 28) as usize, (wid & 0x0fff_ffff) as usize);
+                    let in_user = d == 1;
+                    let row = if d == 0 { w.sys.rows.get(i) } else if d == 1 { w.usr.as_ref().and_then(|u| u.rows.get(i)) } else { None };
+                    let Some(r) = row else { continue };
+                    run.bump("tok-subset:words");
+                    let pre = format!("c05:tok-subset:{}", if in_user { "ufield" } else { "field" });
+                    let seen: Vec<String> = l.words.get(d).and_then(|x| x.get(i)).map_or(vec![], |full| word_diffs(w, &l.pos, r, full, F_ALL, in_user, "c05:full", i).into_iter().map(|x| x.0).collect());
+                    for (k, what) in word_diffs(w, &pos_list, r, &Ok(o), eff, in_user, &pre, i) {
+                        if seen.contains(&k) { continue; }
+                        fails += 1;
+                        if fails <= SUBSET_FAIL_CAP {
+                            run.fail(idx, &k, &format!("{}: {} word {} ({:?}) of the result: {}", ctx, if in_user { "user" } else { "system" }, i, r.surface.chars().take(12).collect::<String>(), what));
+                        }
+                    }
+                }
+            }
+        }
+    }
+    fails
+}
+
 pub fn run(run: &mut Run) {
     run.rule = "one system dictionary (+ user dictionary in about 1/3 of the cases) per case: random lexicon rows (homographs, shared prefixes, \
 non-indexed rows, headword/reading/normalised form equal to / different from the headword / empty, \\uXXXX and \\u{X} escapes, astral characters, \
@@ -1039,7 +1276,13 @@ id and inline split references, U-references, word structure, synonym groups, di
 (square and non-square, sparse, shuffled, overwritten cells, blank lines, tabs, CRLF); directed low indices force 126/127/128-unit strings and \
 126/127/128-byte keys, 32767-unit strings, 0/1/126/127/128 array items, 127/128 homographs, 255/256/257-byte descriptions, an indexed row with \
 right id -1; observed per case: all bytes of both dictionaries, both headers (version, time, description), POS list, every matrix cell, every field and \
-the parameters of every word, LexiconSet::lookup of every source key; non-trivial = compiles and loads; distinct by line".into();
+the parameters of every word, LexiconSet::lookup of every source key; ORACLE-ONLY in addition, per entry: every declared field read back through each of the \
+10 single-field InfoSubsets and 2 (6 for entries with a string of >= 127 units) random partial subsets (the requests of the bundled callers: POS_ID, \
+SURFACE|READING_FORM|POS_ID, POS_ID|NORMALIZED_FORM, ..; late fields alone; uniform masks; each closed under 'a form needs the headword') with \
+LexiconSet::get_word_info_subset and, for system entries, Lexicon::get_word_info - only the fields asked for are compared with the declared row; \
+per case up to 6 analyses of entry keys (first three rows = the directed boundary rows, random rows, a user row) by a StatefulTokenizer over the \
+JapaneseDictionary of the same bytes after set_subset(random request), modes A/B/C: every dictionary word of the result vs the declared row of its \
+word id, and 'succeeds with all fields => succeeds with the subset'; non-trivial = compiles and loads; distinct by line".into();
     let directed: Vec<Profile> = vec![
         Profile::Tiny, Profile::LenBoundary(127), Profile::LenBoundary(128), Profile::LenBoundary(126), Profile::LenBoundary(255), Profile::LenBoundary(256),
         Profile::Arrays(127), Profile::Arrays(128), Profile::Arrays(1), Profile::Arrays(126), Profile::Homographs(127), Profile::Homographs(128),
@@ -1052,6 +1295,8 @@ the parameters of every word, LexiconSet::lookup of every source key; non-trivia
     run.bump(&format!("variant:df={}", df_variant()));
     run.bump(&format!("variant:dfv={}", dfv_variant()));
     let mut child_jobs: Vec<(usize, String, String)> = vec![];
+    let tokdir = tok_workdir(&run.opts.out);
+    let mut subset_secs = (0f64, 0f64);
     for idx in 0..n {
         if !run.wants(idx) { continue; }
         let mut rng = Rng::for_case(run.opts.seed, idx);
@@ -1158,6 +1403,14 @@ the parameters of every word, LexiconSet::lookup of every source key; non-trivia
         let (Some(l), Some((sb, ub))) = (&loaded, &bins) else { continue };
         let mut fails = check_dict(run, idx, &w, l, false);
         if w.usr.is_some() { fails += check_dict(run, idx, &w, l, true); }
+        // the same declared data through partial field subsets (own random stream: the case lines stay what they were)
+        let mut srng = Rng::for_case(run.opts.seed ^ 0x5b5e7c05, idx);
+        let t0 = std::time::Instant::now();
+        fails += check_subsets(run, idx, &mut srng, &w, l, sb, ub.as_deref());
+        let t1 = std::time::Instant::now();
+        if let Some(dir) = &tokdir { fails += check_tok_subsets(run, idx, &mut srng, &w, l, dir, sb, ub.as_deref()); }
+        subset_secs.0 += (t1 - t0).as_secs_f64();
+        subset_secs.1 += t1.elapsed().as_secs_f64();
         // connection costs = the matrix text
         if (l.nl, l.nr) != (w.matrix.nl, w.matrix.nr) {
             run.fail(idx, "c05:matrix:shape", &format!("matrix {}x{} declared, {}x{} loaded", w.matrix.nl, w.matrix.nr, l.nl, l.nr));
@@ -1261,6 +1514,8 @@ the parameters of every word, LexiconSet::lookup of every source key; non-trivia
         run.bump("alignment-pairs");
         if fails == 0 { run.bump("oracle:clean"); }
     }
+    run.extra.insert("subset_oracle_seconds".into(), serde_json::json!({"get_word_info_subset": (subset_secs.0 * 10.0).round() / 10.0, "tokenizer_set_subset": (subset_secs.1 * 10.0).round() / 10.0}));
+    if let Some(dir) = &tokdir { let _ = std::fs::remove_dir_all(dir); }
     // determinism across PROCESSES: one fresh process compiles every collected input again
     if !child_jobs.is_empty() {
         let dir = run.opts.out.clone();
